@@ -6,12 +6,74 @@ def hook_commits():
     out = subprocess.run(["git", "-C", "/repo", "log", "--format=%H %s"], capture_output=True, text=True).stdout
     return [l.split()[0] for l in out.splitlines() if "verif hooks:" in l]
 
+E1 = "regex-syntax 0.8.4 / regex-automata 0.4.7 (the versions locked by the repository) define what a pattern denotes; any counterexample is re-validated with regex::Regex; oracle size limits are inconclusive; inputs and settings are sampled except for the bounded-exhaustive families"
+
 CHECKS = {
     "C01": dict(
-        technique="runtime monitor at the API boundary: real build() output compiled and run with regex::Regex on every test case; hook snapshots classify the known finding",
-        text="Exploration: every execution of the real build() is observed by an oracle (the regex crate itself) that decides 'compiles and matches every test case in full'. Reach comes from bounded-exhaustive power sets of small alphabets, structured random families over adversarial alphabets, a sweep over scalar values and sampled/pairwise points of the settings lattice. Held means: held on the K executions observed.",
-        note="Trusted: regex 1.10.6 (the version locked by the repository) as the definition of 'compiles'/'matches'; inputs are sampled except for the bounded-exhaustive families.",
+        technique="runtime monitor: real build() output compiled and run with regex::Regex on every test case; hook snapshots classify the known finding",
+        text="Exploration: every execution of the real build() is observed by an oracle (the regex crate itself) that decides 'compiles and matches every test case in full'. Reach: bounded-exhaustive power sets of small alphabets, all small sets of one-character metacharacter/blank strings, structured random families over 10 adversarial alphabets, a sweep over scalar values, sampled points of the settings lattice. Held = held on the executions observed.",
+        note="Trusted: regex 1.10.6 as the definition of 'compiles'/'matches'; inputs are sampled except for the bounded-exhaustive families.",
         ref="DESIGN.md §3 C01"),
+    "C02": dict(
+        technique="runtime monitor with exact language oracle: DFA equivalence (regex-automata) of the real output and the alternation of the test cases",
+        text="Exploration over inputs; per execution the question 'does the pattern accept anything but the test cases' is decided exactly over all Unicode strings by automaton equivalence, not sampled. Full power sets of {a,b}^<=3 and {a,b,c}^<=2 in the thorough tier.",
+        note=E1, ref="DESIGN.md §3 C02"),
+    "C03": dict(
+        technique="runtime monitor: DFA equivalence of the real output with the per-code-point class specification built from the regex crate's own classes",
+        text="Exploration: all 63 class-option subsets x class-diverse inputs x modifiers; each execution decided exactly by automaton equivalence against the documented precedence.",
+        note=E1, ref="DESIGN.md §3 C03"),
+    "C04": dict(
+        technique="runtime monitor: AST flag check, DFA equivalence with the (?i) alternation of the original test cases, collapse probes, single-scalar sweep",
+        text="Exploration: cased/uncased alphabets, every special-cased letter alone and in pairs, every cased scalar (all scalars in thorough) as a one-character test case; language decided exactly per execution.",
+        note=E1 + "; collapse asserted only for std-equal, engine-foldable variants", ref="DESIGN.md §3 C04"),
+    "C05": dict(
+        technique="runtime monitor: DFA equivalence of build(with repetitions) and build(without); stage attribution through the hook event log",
+        text="Exploration over repeat-rich families x thresholds; every difference is attributed to a pipeline stage from recorded snapshots so that only the listed known defect (trie folding) is tolerated.",
+        note=E1 + "; the D3 classifier is an executable model of the defective folding rule", ref="DESIGN.md §3 C05"),
+    "C06": dict(
+        technique="runtime monitor: DFA equivalence of each of the 7 presentation subsets with the base build; regex-syntax AST for flags and group kinds",
+        text="Exploration over blank/metacharacter-heavy inputs x base settings; verbose sweep over blank/control scalars (all scalars in thorough).",
+        note=E1, ref="DESIGN.md §3 C06"),
+    "C07": dict(
+        technique="runtime monitor: catch_unwind + subprocess death-by-signal detection + regex crate acceptance over the full 2^15 settings lattice; Miri leg in the thorough tier",
+        text="Exploration: full lattice of 32768 boolean settings on rich inputs, thresholds incl. u32::MAX, random inputs x random lattice points, large inputs in child processes (stack overflow / abort observed as signals), documented-panic contract. Built with overflow checks and debug assertions. Thorough adds Miri (UB / leaks in executed paths).",
+        note="regex 1.10.6 defines 'accepted' (default parser limits); time/memory exhaustion is inconclusive", ref="DESIGN.md §3 C07"),
+    "C08": dict(
+        technique="runtime monitor: HIR anchor structure, DFA equivalence of anchored vs anchor-less body, Regex::find span monitor",
+        text="Exploration centred on prefix-related test cases: all subsets of {a,b}^<=3 and {a,b,c}^<=2 x 3 anchor modes (size<=4 quick, all thorough), grapheme/class/repetition variants, random families.",
+        note=E1 + "; leftmost-first semantics are those of regex 1.10.6", ref="DESIGN.md §3 C08"),
+    "C09": dict(
+        technique="runtime monitor: exhaustive single-scalar sweep against the regex crate's class tables",
+        text="Every one of the 1,112,064 scalar values x the six single options is built in both tiers; all multi-option subsets on every class boundary (quick) or every scalar (thorough, exhaustive).",
+        note="class membership oracle: ranges of the regex-syntax HIR of \\d, \\w, \\s in Unicode mode", ref="DESIGN.md §3 C09"),
+    "C10": dict(
+        technique="runtime monitor: builder histories against a sequential model, in-process rebuilds (fresh hash seeds), cross-process and 16-thread comparisons; ThreadSanitizer and Miri many-seeds legs in the thorough tier",
+        text="Exploration over histories and schedules: string equality of results across setter orders, interleaved builds, clones, list permutations/duplicates, processes and racing threads.",
+        note="schedules are sampled (OS scheduler; Miri seeds in thorough), not enumerated", ref="DESIGN.md §3 C10"),
+    "C11": dict(
+        technique="runtime monitor: ASCII check, escape tokenizer (surrogate pairing, quantifier binding), DFA equivalence of the decoded pattern with the unescaped build, exact-text sweep",
+        text="Exploration over boundary code points, pairs and repeats x surrogate flag x other settings; sweep of non-ASCII scalars in both modes (every scalar in thorough).",
+        note=E1, ref="DESIGN.md §3 C11"),
+    "C12": dict(
+        technique="runtime monitor on the real grex binary: stdout/stderr/exit status vs the in-process library for every channel variant",
+        text="Exploration: discriminating input x single flags, all pairs, thresholds, random subsets; random argument-safe inputs; 13 channel variants per case; error inputs must fail with one error line and no panic.",
+        note="the binary is built from /repo's working tree by build.sh; short/long option spellings alternate", ref="DESIGN.md §3 C12"),
+    "C13": dict(
+        technique="runtime monitor: regex-syntax AST walk over every counted repetition of the real output",
+        text="Exploration over unary/periodic/nested inputs x thresholds 1..=6 x 1..=6 and random repeat-rich families; monotonicity probe with one threshold raised.",
+        note="unit length measured in code points (an upper bound of grex's grapheme count), so the monitor can only under-report", ref="DESIGN.md §3 C13"),
+    "C14": dict(
+        technique="runtime monitor on the real Python extension module (built from /repo, loaded in CPython): result vs independent re-implementation of the specified rewrite, re.compile, re.fullmatch, ValueError contract",
+        text="Exploration over code points of every hex width x escape modes x settings, all setters and pairs, random families; setter order shuffled.",
+        note="CPython's re defines 'compiles'/'matches'; Python/Rust case-folding differences are notes, not violations", ref="DESIGN.md §3 C14"),
+    "C15": dict(
+        technique="runtime monitor: highlighted vs plain output, DP deciding whether deleting SGR sequences yields the plain output",
+        text="Exploration: lattice of the 14 other settings on rich inputs, random families with one third over ESC [ m digits ; alphabets.",
+        note="SGR grammar: ESC [ digits (; digits)* m", ref="DESIGN.md §3 C15"),
+    "C16": dict(
+        technique="runtime monitor over the hook event log: stage-by-stage DFA equivalence and structural minimality of the recorded automata",
+        text="Exploration: per execution the recorded clusters, trie, minimised automaton and expression are compared as languages stage by stage; with repetition off the minimised automaton is checked for determinism, reachability and pairwise distinct right languages.",
+        note=E1 + "; hook records real data structures read-only", ref="DESIGN.md §3 C16"),
 }
 
 NOT_APPLICABLE = [
